@@ -24,6 +24,10 @@ static JSON make_scalar(int kind, uint64_t val, const uint8_t* s, size_t n) {
   }
 }
 
+static int describe_kind(const JSON& j) {
+  return j.is_null() ? 0 : j.is_bool() ? 1 : j.is_int() ? 2 : j.is_float() ? 3 : j.is_string() ? 4 : j.is_list() ? 5 : 6;
+}
+
 WEXPORT int64_t w_json_escape(const uint8_t* in, size_t n, int mode, uint8_t* out, size_t cap) {
   try {
     return w_copy_out(JSON::escape_string(w_str(in, n), static_cast<JSON::StringEscapeMode>(mode)), out, cap);
@@ -54,56 +58,26 @@ WEXPORT int64_t w_json_cmp_scalar(int ka, uint64_t va, int kb, uint64_t vb, cons
   W_JSON_CATCH
 }
 
-// Value trees of a concrete SHAPE with up to two leaves a, b (kind/value as make_scalar; a string leaf is the 1-byte string
-// (char)val) and up to two 1-byte dictionary keys k[0], k[1]:
-//   0 []   1 {}   2 [a]   3 [a,b]   4 {k0:a}   5 {k0:a,k1:b}   6 [[a]]   7 {k0:[a]}   8 [{k0:a}]   9 [[],{}]   10 [a,[b]]
-static JSON leaf(int kind, uint64_t val) {
-  uint8_t c = static_cast<uint8_t>(val);
-  return make_scalar(kind, val, &c, 1);
-}
-static JSON make_tree(int shape, int ka, uint64_t va, int kb, uint64_t vb, const uint8_t* k) {
-  std::string k0(reinterpret_cast<const char*>(k), 1), k1(reinterpret_cast<const char*>(k + 1), 1);
-  switch (shape) {
-    case 0: return JSON::list();
-    case 1: return JSON::dict();
-    case 2: return JSON::list({leaf(ka, va)});
-    case 3: return JSON::list({leaf(ka, va), leaf(kb, vb)});
-    case 4: return JSON::dict({{k0, leaf(ka, va)}});
-    case 5: return JSON::dict({{k0, leaf(ka, va)}, {k1, leaf(kb, vb)}});
-    case 6: return JSON::list({JSON::list({leaf(ka, va)})});
-    case 7: return JSON::dict({{k0, JSON::list({leaf(ka, va)})}});
-    case 8: return JSON::list({JSON::dict({{k0, leaf(ka, va)}})});
-    case 9: return JSON::list({JSON::list(), JSON::dict()});
-    default: return JSON::list({leaf(ka, va), JSON::list({leaf(kb, vb)})});
-  }
-}
-// the first leaf of the tree (shapes with a leaf)
-static JSON& first_leaf(JSON& j, int shape, const uint8_t* k) {
-  std::string k0(reinterpret_cast<const char*>(k), 1);
-  switch (shape) {
-    case 2: case 3: case 10: return j.at(0);
-    case 4: case 5: return j.at(k0);
-    case 6: return j.at(0).at(0);
-    case 7: return j.at(k0).at(0);
-    default: return j.at(0).at(k0);
-  }
-}
-// what: 0 serialize the tree; 1 serialize a copy (copy constructor); 2 copy, overwrite the copy's first leaf with leaf b,
-// serialize the ORIGINAL (deep copy: must be unchanged); 3 same, serialize the modified COPY;
-// 4 return (orig == copy) | (orig != copy) << 1 | (orig == modified copy) << 2 | (orig != modified copy) << 3
-WEXPORT int64_t w_json_tree(int what, int shape, int ka, uint64_t va, int kb, uint64_t vb, const uint8_t* k, uint32_t options, uint8_t* out, size_t cap) {
+// copy construction / copy assignment of a scalar: bit 0 copy == orig, bit 1 !(copy != orig), bit 2 same alternative
+// (null/bool/int/float/string), bit 3 assigned == orig, bit 4 same alternative after assignment over a value of kind `over`,
+// bit 5 (strings) the original is unchanged after the copy's text was modified, bit 6 the copy reflects the modification
+WEXPORT int64_t w_json_copy_scalar(int kind, uint64_t val, const uint8_t* s, size_t n, int over, uint8_t* out, size_t cap) {
   try {
-    JSON orig = make_tree(shape, ka, va, kb, vb, k);
-    if (what == 0) return w_copy_out(orig.serialize(options), out, cap);
+    JSON orig = make_scalar(kind, val, s, n);
     JSON copy(orig);
-    if (what == 1) return w_copy_out(copy.serialize(options), out, cap);
-    if (what == 4) {
-      int64_t r = (orig == copy ? 1 : 0) | (orig != copy ? 2 : 0);
-      first_leaf(copy, shape, k) = leaf(kb, vb);
-      return r | (orig == copy ? 4 : 0) | (orig != copy ? 8 : 0);
+    int64_t r = (copy == orig ? 1 : 0) | (!(copy != orig) ? 2 : 0) | (describe_kind(copy) == describe_kind(orig) ? 4 : 0);
+    JSON assigned = make_scalar(over, 1, s, n);
+    assigned = orig;
+    r |= (assigned == orig ? 8 : 0) | (describe_kind(assigned) == describe_kind(orig) ? 16 : 0);
+    if (kind == 4) {
+      copy.as_string().push_back('!');
+      const std::string& o = orig.as_string();
+      r |= ((o.size() == n) && (n == 0 || memcmp(o.data(), s, n) == 0)) ? 32 : 0;
+      r |= (copy.as_string().size() == n + 1) ? 64 : 0;
     }
-    first_leaf(copy, shape, k) = leaf(kb, vb);
-    return w_copy_out((what == 2 ? orig : copy).serialize(options), out, cap);
+    int64_t w = w_copy_out(assigned.serialize(0x01), out, cap); // hex ints: no decimal digit generation involved
+    if (w < 0) return w;
+    return r | (w << 8);
   }
   W_JSON_CATCH
 }
